@@ -18,6 +18,7 @@ import copy
 import itertools
 import random
 
+import c04time
 import env
 import pipeline
 from pipeline import A, R, SPCase
@@ -417,6 +418,7 @@ def judge(ctx, c, now, spec, got, seq=None):
 
 def run(ctx):
     env.tool_inprocess(True)
+    c04time.run(ctx)        # the text layer: str_to_time / instant / before / after / later_than vs Model/TimeUtil.v
     cells = plan(ctx.quick, ctx.rng)
     authn_cases, kind_cases = [], []
     unspecified = 0
@@ -522,6 +524,8 @@ def run_histories(ctx, cells):
 def replay(ctx, payload):
     env.tool_inprocess(True)
     c = payload.get("input")
+    if isinstance(c, dict) and c.get("unit") == "time":
+        return c04time.replay(c)
     print("replay cell:", c)
     if not isinstance(c, dict) or "focus" not in c or c["focus"] == "expiry":
         return 0
